@@ -56,6 +56,11 @@ func genC13Pkg(t *rapid.T, modPath, dir, name string, importable []string, feats
 				n := next()
 				defined = append(defined, n)
 				fmt.Fprintf(&b, "type %s int\n\nfunc (v %s) String() string { return \"\" }\n\n", n, n)
+				if rapid.Bool().Draw(t, "aliasrecv") {
+					// methods declared through an alias of the type belong to the type
+					fmt.Fprintf(&b, "type %sAlias = %s\n\nfunc (v %sAlias) ViaAlias%d() {}\n\nfunc (v *%sAlias) ViaAliasPtr%d() {}\n\n", n, n, n, di, n, di)
+					feats["alias-receiver"] = true
+				}
 			case 3:
 				// generic type with value and pointer receivers, receiver type parameter renamed
 				n := next()
@@ -287,33 +292,46 @@ func checkPackage(u *gengotypes.Universe, p gengotypes.Package, files []string, 
 				val = append(val, m)
 			}
 		}
-		if got, want := funcSet(p.MethodsOf(named, true)), funcSet(all); strings.Join(got, ",") != strings.Join(want, ",") {
-			return fmt.Errorf("%s: MethodsOf(%s, true) = %v, declared methods are %v", path, n, got, want)
-		}
-		if got, want := funcSet(p.MethodsOf(named, false)), funcSet(val); strings.Join(got, ",") != strings.Join(want, ",") {
-			return fmt.Errorf("%s: MethodsOf(%s, false) = %v, value-receiver methods are %v", path, n, got, want)
+		// asked repeatedly and in both orders: the answer must not depend on earlier calls
+		for round := 0; round < 3; round++ {
+			if got, want := funcSet(p.MethodsOf(named, true)), funcSet(all); strings.Join(got, ",") != strings.Join(want, ",") {
+				return fmt.Errorf("%s: MethodsOf(%s, true) = %v (call round %d), declared methods are %v", path, n, got, round, want)
+			}
+			if got, want := funcSet(p.MethodsOf(named, false)), funcSet(val); strings.Join(got, ",") != strings.Join(want, ",") {
+				return fmt.Errorf("%s: MethodsOf(%s, false) = %v (call round %d), value-receiver methods are %v", path, n, got, round, want)
+			}
 		}
 	}
 	// imports
-	var wantImports []string
+	// import paths as written in the source; the standard library vendors some dependencies, whose packages are
+	// registered (and known to go/types) under "vendor/<import path>"
+	wantImports := map[string]bool{}
 	for _, ip := range tp.Imports() {
-		wantImports = append(wantImports, ip.Path())
+		wantImports[strings.TrimPrefix(ip.Path(), "vendor/")] = true
 	}
-	sort.Strings(wantImports)
-	gotImports := make([]string, 0)
+	gotImports := map[string]bool{}
 	for k := range p.Imports() {
-		gotImports = append(gotImports, k)
+		gotImports[strings.TrimPrefix(k, "vendor/")] = true
 	}
-	sort.Strings(gotImports)
-	if strings.Join(gotImports, ",") != strings.Join(wantImports, ",") {
-		return fmt.Errorf("%s: Imports() has keys %v, the package imports %v", path, gotImports, wantImports)
+	for k := range wantImports {
+		if !gotImports[k] {
+			return fmt.Errorf("%s: Imports() lacks %q, which the package imports (has %v)", path, k, keysOf(gotImports))
+		}
+	}
+	for k := range gotImports {
+		if !wantImports[k] {
+			return fmt.Errorf("%s: Imports() has %q, which the package does not import (imports %v)", path, k, keysOf(wantImports))
+		}
 	}
 	for k, v := range p.Imports() {
 		if v == nil {
 			return fmt.Errorf("%s: Imports()[%q] is nil", path, k)
 		}
-		if v != u.Package(k) {
-			return fmt.Errorf("%s: Imports()[%q] is not the Package that Universe.Package returns", path, k)
+		if strings.TrimPrefix(v.Pkg().Path(), "vendor/") != strings.TrimPrefix(k, "vendor/") {
+			return fmt.Errorf("%s: Imports()[%q] is package %s", path, k, v.Pkg().Path())
+		}
+		if v != u.Package(v.Pkg().Path()) {
+			return fmt.Errorf("%s: Imports()[%q] is not the Package that Universe.Package(%q) returns", path, k, v.Pkg().Path())
 		}
 	}
 	// location
@@ -337,6 +355,15 @@ func checkPackage(u *gengotypes.Universe, p gengotypes.Package, files []string, 
 		}
 	}
 	return nil
+}
+
+func keysOf(m map[string]bool) []string {
+	out := make([]string, 0, len(m))
+	for k := range m {
+		out = append(out, k)
+	}
+	sort.Strings(out)
+	return out
 }
 
 // walkUniverse visits every package reachable from the given roots through go/types imports.
@@ -452,7 +479,15 @@ func TestC13(t *testing.T) {
 		Budget:  ev.Budget{Quick: 150, Thorough: 2000}, MinNonTrivial: 0.4,
 	})
 	if r.Shard == 0 {
-		c13ClosureSweep(r)
+		c13ClosureSweep(r, "closure", repoDir(), false)
+	}
+	if r.Shard == r.NSh-1 {
+		// a module that imports net/http: the standard library's vendored dependencies are part of the closure
+		dir := tempDir()
+		defer os.RemoveAll(dir)
+		m := modspec.Mod{Path: "m", Go: "1.21", Pkgs: []modspec.Pkg{{Dir: "web", Name: "web", Other: []modspec.File{{Name: "web.go", Data: "package web\n\nimport \"net/http\"\n\nvar Client http.Client\n"}}}}}
+		writeMod(&m, dir)
+		c13ClosureSweep(r, "std-http", dir, true)
 	}
 }
 
@@ -461,7 +496,7 @@ type c13Pkg struct {
 }
 
 // c13ClosureSweep loads /repo's whole closure once and checks every package.
-func c13ClosureSweep(r *ev.Recorder) {
+func c13ClosureSweep(r *ev.Recorder, sub string, dir string, replayReload bool) {
 	var u *gengotypes.Universe
 	var roots []string
 	loadOnce := func() {
@@ -469,7 +504,7 @@ func c13ClosureSweep(r *ev.Recorder) {
 			return
 		}
 		var err error
-		u, err = load(repoDir(), "./...")
+		u, err = load(dir, "./...")
 		if err != nil {
 			panic("harness: cannot load the repository closure: " + err.Error())
 		}
@@ -485,7 +520,7 @@ func c13ClosureSweep(r *ev.Recorder) {
 		}
 		return checkPackage(u, p, filesOf(p), "")
 	}
-	ev.Enumerate(r, "closure", func(yield func(c13Pkg) bool) {
+	ev.Enumerate(r, sub, func(yield func(c13Pkg) bool) {
 		loadOnce()
 		var paths []string
 		_, err := walkUniverse(u, roots, func(p gengotypes.Package) error {
@@ -496,7 +531,7 @@ func c13ClosureSweep(r *ev.Recorder) {
 			panic("harness: " + err.Error())
 		}
 		sort.Strings(paths)
-		r.Extra("closure_packages", len(paths))
+		r.Extra(sub+"_packages", len(paths))
 		for _, pp := range paths {
 			if !yield(c13Pkg{Path: pp}) {
 				return
